@@ -38,7 +38,7 @@ def run(ctx):
             if b["check"] in seen:
                 continue
             seen.add(b["check"])
-            ctx.violation(b["check"], {"trace_line": b["line"]}, {"kind": "trace", "trace": kept, "line": b["line"], "module": "Abi"})
+            ctx.violation(b["check"], {"trace_line": b["line"]}, {"kind": "trace", "record_args": [str(a) for a in h["args"]], "trace": kept, "line": b["line"], "module": "Abi"})
     n = h["summary"]["counts"]["conversions"]
     ctx.cov["evaluations"] += n
     ctx.cov["distinct_nontrivial"] += n
